@@ -267,7 +267,7 @@ ALWAYS_AVOID = os.environ.get("VERIF_C33_AVOID", "0") == "1"
 
 def run(sim):
     npk = sim.draw_int(1, 3, "npackets")
-    avoid_split_prefix = sim.draw_bool(0.5, "avoid_split_prefix") or ALWAYS_AVOID
+    avoid_split_prefix = sim.draw_bool(0.1, "avoid_split_prefix") or ALWAYS_AVOID
     pend_udp = sim.draw_bool(0.3, "pending_udp_query")
     pend_tcp = sim.draw_bool(0.3, "pending_tcp_query")
     sim.config = {"npackets": npk, "avoid_split_prefix": avoid_split_prefix, "pending_udp": pend_udp, "pending_tcp": pend_tcp}
